@@ -181,6 +181,8 @@ def run_case(ctx, shape, recursive, linear):
     # the Jacobian itself (what backward and newton are built on): J at a random point against the model `Pipe.jac`
     from . import jac
     jac.stream(ctx, shape, 'real', 'J', case)
+    # J_log (the Jacobian the Log-semiring backward pass uses) against its model `Jl.jlogLabel` (theorem C03.jlog_is_logDerivative)
+    jac.stream_jlog(ctx, shape, case)
     if 'vweights' in shape:
         jac.stream(ctx, shape, 'viterbi', 'J', case)
     nontriv = any(d != 0 for e in entries for d in model[e])
